@@ -1,0 +1,15 @@
+//go:build verif
+
+package endorse
+
+import (
+	"context"
+
+	epb "github.com/google/gce-tcb-verifier/proto/endorsement"
+)
+
+// VerifCommitEndorsement exposes commitEndorsement (RetrySubmit around the real changeEndorsements
+// closure) to the verification harness.
+func VerifCommitEndorsement(ctx context.Context, endorsement *epb.VMLaunchEndorsement) error {
+	return commitEndorsement(ctx, endorsement)
+}
